@@ -152,3 +152,16 @@ package keeper
 //@ func (k Keeper) DebtAuctionClose
 //@   property C14
 //@   trusted
+
+// First-generation dutch sweeps (C15): everything outside the wrapped per-auction step is free of panics (the step itself is
+// all-or-nothing by the contract of ApplyFuncIfNoError). The first-generation hook is not wired into the module's
+// BeginBlock; the contract keeps the sweeps safe to call.
+//@ func (k Keeper) RestartDutchAuctions
+//@   property C15
+//@   nopanic
+//@   loop 0 invariant #any: true
+
+//@ func (k Keeper) RestartDutchLendAuctions
+//@   property C15
+//@   nopanic
+//@   loop 0 invariant #any: true
